@@ -26,3 +26,31 @@ Fixpoint shapes_eqb (l l' : list store_shape) : bool :=
 
 (* the shipped shape: _ratios[a][b] = b.m / a.m ; _ratios[b][a] = a.m / b.m *)
 Definition shipped_stores : list store_shape := [(SA, SB, SB, SA); (SB, SA, SA, SB)].
+
+(* ---------- translate(scale, zero): degree = zero.unit, offset = zero.magnitude; four stores ----------
+   `_ratios[X][Y] = 1` is (TRatios, X, Y, VOne); `_offsets[X][Y] = -offset` is (TOffsets, X, Y, VNeg); `+offset` is VPos;
+   X, Y name `degree` (SA) or `scale` (SB) *)
+Inductive which := TRatios | TOffsets.
+Inductive tval := VOne | VNeg | VPos.
+Definition tstore_shape := (which * side * side * tval)%type.
+
+Definition tval_of (v : tval) (z : Q) : Q := match v with VOne => 1 | VNeg => - z | VPos => z end.
+Definition do_tstore (scale degree : unit3) (z : Q) (st : table * table) (s : tstore_shape) : table * table :=
+  let '(w, x, y, v) := s in
+  match w with
+  | TRatios => (tset (fst st) (pick x degree scale) (pick y degree scale) (tval_of v z), snd st)
+  | TOffsets => (fst st, tset (snd st) (pick x degree scale) (pick y degree scale) (tval_of v z))
+  end.
+Definition translate_of (stores : list tstore_shape) (t o : table) (scale degree : unit3) (z : Q) : table * table :=
+  fold_left (do_tstore scale degree z) stores (t, o).
+
+Definition which_eqb (a b : which) : bool := match a, b with TRatios, TRatios | TOffsets, TOffsets => true | _, _ => false end.
+Definition tval_eqb (a b : tval) : bool := match a, b with VOne, VOne | VNeg, VNeg | VPos, VPos => true | _, _ => false end.
+Definition tshape_eqb (s s' : tstore_shape) : bool :=
+  let '(w, x, y, v) := s in let '(w', x', y', v') := s' in
+  which_eqb w w' && side_eqb x x' && side_eqb y y' && tval_eqb v v'.
+Fixpoint tshapes_eqb (l l' : list tstore_shape) : bool :=
+  match l, l' with [] , [] => true | s :: l, s' :: l' => tshape_eqb s s' && tshapes_eqb l l' | _, _ => false end.
+
+Definition shipped_tstores : list tstore_shape :=
+  [(TRatios, SA, SB, VOne); (TRatios, SB, SA, VOne); (TOffsets, SA, SB, VNeg); (TOffsets, SB, SA, VPos)].
